@@ -1,7 +1,7 @@
 (* C16 — live updates keep segment identity: append and truncation are stable. *)
 From hls Require Import Base Float Lex Kinds Types Tags Line Keys Media Master.
 From hls.Generated Require Import Tables.
-From hls.Proofs Require Import Build Parse MediaProps C16 MediaText C03Items ParsedBuilt Slide.
+From hls.Proofs Require Import Build Parse MediaProps C16 MediaText C03Items ParsedBuilt Slide MediaParsedFloats.
 Open Scope N_scope.
 
 (* if an item list and an extension of it are both accepted (same media sequence value), the
@@ -64,6 +64,18 @@ Check C16_slide : forall s p k, parse_media s = Ok p -> wf_media p = true -> (k 
   /\ mp_mseq (reread (slide k p)) = mp_mseq p + N.of_nat k
   /\ Forall2 seg_same (mp_segs (reread (slide k p))) (skipn k (mp_segs p)).
 Print Assumptions C16_slide.
+
+(* the same for every parse result with durations below 2^20 s and plain SCTE35 values: no well-formedness or float hypothesis *)
+Theorem C16_slide_parsed : forall s p k, parse_media s = Ok p -> media_small p = true -> (k < List.length (mp_segs p))%nat ->
+  parse_media (print_media (slide k p)) = Ok (reread (slide k p))
+  /\ mp_mseq (reread (slide k p)) = mp_mseq p + N.of_nat k
+  /\ Forall2 seg_same (mp_segs (reread (slide k p))) (skipn k (mp_segs p)).
+Proof. exact slide_roundtrip_small. Qed.
+Check C16_slide_parsed : forall s p k, parse_media s = Ok p -> media_small p = true -> (k < List.length (mp_segs p))%nat ->
+  parse_media (print_media (slide k p)) = Ok (reread (slide k p))
+  /\ mp_mseq (reread (slide k p)) = mp_mseq p + N.of_nat k
+  /\ Forall2 seg_same (mp_segs (reread (slide k p))) (skipn k (mp_segs p)).
+Print Assumptions C16_slide_parsed.
 
 Example C16_example :
   is_err (parse_master (lit "#EXTM3U
